@@ -181,8 +181,13 @@ def wi (s : String) (t : FTok) : W String := ⟨s, t⟩
 def dataLoop : Nat → List (W Word) → P (List (W Word))
   | 0, acc => pure acc.reverse
   | fuel + 1, acc => do
-    -- the list also ends with the file
-    if (← get).items.isEmpty then return acc.reverse
+    -- the list also ends with the file, and with an item the lexer could not read (it belongs
+    -- to the next statement, which reports it)
+    match (← get).items with
+    | [] => return acc.reverse
+    | .strErr .. :: _ => return acc.reverse
+    | .unexpected .. :: _ => return acc.reverse
+    | _ => pure ()
     let next ← peekAny
     if next.kind == .newline then
       let _ ← getAny
